@@ -86,6 +86,12 @@ impl Rng {
         (0..n).map(|_| self.byte()).collect()
     }
 
+    /// Random bytes, random length in [0, max).
+    pub fn bytes_upto(&mut self, max: usize) -> Vec<u8> {
+        let n = self.usize_below(max);
+        self.bytes(n)
+    }
+
     /// Weighted choice: returns the index.
     pub fn weighted(&mut self, w: &[u32]) -> usize {
         let total: u64 = w.iter().map(|x| *x as u64).sum();
